@@ -173,7 +173,7 @@ def topMostFrom (d : Doc) (test : Ref → Bool) : Nat → List Ref → List Ref
 def topMost (d : Doc) (test : Ref → Bool) (r : Ref) : List Ref :=
   topMostFrom d test (2 * d.length + 2) (childrenM d r)
 
-/-! ## Node identity (`getHashCode`): the rendered key -/
+/-! ## Node identity (`getNodeKey`): the rendered key -/
 
 def sibIndex (d : Doc) (r : Ref) : Nat := (prevSibsM d r).length + 1
 
@@ -183,22 +183,35 @@ def indexChain (d : Doc) (r : Ref) : String :=
 /-- `writeKeyPart`: the string preceded by its byte length -/
 def keyPart (s : String) : String := toString s.utf8ByteSize ++ ":" ++ s
 
+/-- `getNodeKey`: `strconv.Itoa(int(n.NodeType())) + ":"` (RootNode 0, ElementNode 1, AttributeNode 2,
+TextNode 3, CommentNode 4), then the name parts (and, for a node that is not an element, the value),
+then the chain of sibling indices from the node up to the root; nothing after the tag for the root -/
 def identityKey (d : Doc) (cfg : ECfg) (r : Ref) : String :=
   let _ := cfg
   match nodeType d r with
-  | .attr | .text | .comment =>
-    keyPart (prefixOf d r) ++ keyPart (localName d r) ++ keyPart (stringValue d r) ++ indexChain d r
-  | .elem => keyPart (prefixOf d r) ++ keyPart (localName d r) ++ indexChain d r
-  | _ => ""
+  | .attr =>
+    "2:" ++ (keyPart (prefixOf d r) ++ keyPart (localName d r) ++ keyPart (stringValue d r) ++ indexChain d r)
+  | .text =>
+    "3:" ++ (keyPart (prefixOf d r) ++ keyPart (localName d r) ++ keyPart (stringValue d r) ++ indexChain d r)
+  | .comment =>
+    "4:" ++ (keyPart (prefixOf d r) ++ keyPart (localName d r) ++ keyPart (stringValue d r) ++ indexChain d r)
+  | .elem => "1:" ++ (keyPart (prefixOf d r) ++ keyPart (localName d r) ++ indexChain d r)
+  | _ => "0:"
 
-/-- FNV-64a -/
+/-- FNV-64a — only the legacy `getHashCode` helper (a hash of the node key, kept by the package for
+callers that want a number); the engine does NOT de-duplicate with it any more -/
 def fnv64a (bs : List UInt8) : UInt64 :=
   bs.foldl (fun h b => (h ^^^ b.toUInt64) * 0x100000001b3) 0xcbf29ce484222325
 
-def identityHash (d : Doc) (cfg : ECfg) (r : Ref) : UInt64 := fnv64a (identityKey d cfg r).toUTF8.toList
+/-- the legacy `getHashCode`: FNV-64a of the node key (documentation only; unused by the engine) -/
+def legacyHashCode (d : Doc) (cfg : ECfg) (r : Ref) : UInt64 := fnv64a (identityKey d cfg r).toUTF8.toList
 
-/-- keep the first occurrence of every key (the `map[uint64]bool` of union/ancestor) -/
-def dedupByKey (key : Ref → UInt64) : List Ref → List UInt64 → List Ref
+/-- what union and ancestor de-duplicate with: the node key STRING itself (`map[string]bool`).
+(The name is historical: it used to be the FNV-64a hash of the key.) -/
+def identityHash (d : Doc) (cfg : ECfg) (r : Ref) : String := identityKey d cfg r
+
+/-- keep the first occurrence of every key (the `map[string]bool` of union/ancestor) -/
+def dedupByKey (key : Ref → String) : List Ref → List String → List Ref
   | [], _ => []
   | r :: rs, seen =>
     if seen.contains (key r) then dedupByKey key rs seen
